@@ -153,6 +153,25 @@ def Record.delItem (r : Record) (key : RKey) : Record × Except PyErr Unit :=
 /-- `list(record)` : names in slot order, `None` for empty slots -/
 def Record.keys (r : Record) : List (Option Text) := r.slots.map (·.map (·.col.key))
 
+/-- `record.popitem()` as `MafRecord` inherits it from `MutableMapping`: `key = next(iter(self))` - the name in slot 0,
+    `None` when that slot is empty, `StopIteration` (turned into `KeyError`) for the empty record - then
+    `value = self[key]` and `del self[key]`.  `self[None]` answers `None`, and `del self[None]` raises `KeyError`. -/
+def Record.popItem (r : Record) : Record × Except PyErr Unit :=
+  match r.keys with
+  | [] => (r, .error .key)
+  | none :: _ => r.delItem .none
+  | some k :: _ => r.delItem (.name k)
+
+/-- `record.clear()` (`MutableMapping.clear`): `popitem()` until it raises `KeyError`, which is swallowed; any other
+    exception propagates.  `fuel` bounds the loop (`slots.length + 1` is enough: every successful round empties slot 0). -/
+def Record.clear : Nat → Record → Record × Except PyErr Unit
+  | 0, r => (r, .ok ())
+  | fuel + 1, r =>
+    match r.popItem with
+    | (r', .ok ()) => Record.clear fuel r'
+    | (r', .error .key) => (r', .ok ())
+    | (r', .error e) => (r', .error e)
+
 /-- `record.value(key)` -/
 def Record.value (r : Record) (key : RKey) : Except PyErr PyVal :=
   match r.getItem key with
